@@ -171,6 +171,16 @@ func intrinsic(ex *Exec, st *State, site ssa.Instruction, fn *ssa.Function, args
 		ex.Decoded = iv.V
 		ex.DecodeFailKind = smt.Extract(args[1].(*smt.Term), 7, 0)
 		return ex.strToBytes(st, ConcreteStr("<toml>"))
+	case "TOMLToken":
+		// several files: each registration gets a 2-byte token that travels through the file-system model;
+		// the decoder stub recognises it in the bytes it is given
+		iv, ok := args[0].(*IfaceV)
+		if !ok {
+			panic(unsupported("TOMLToken needs a pointer to the decoded struct"))
+		}
+		ex.DecodedList = append(ex.DecodedList, decodedReg{val: iv.V, kind: smt.Extract(args[1].(*smt.Term), 7, 0)})
+		id := ex.newObj(st, &ArrayV{E: []Value{smt.Const(8, 0xF0), smt.Const(8, uint64(len(ex.DecodedList)-1))}})
+		return &SliceV{Obj: id, Len: bv64(2), Cap: 2, MaxLen: 2}
 	case "TOMLBytes":
 		// registers the decoded value for the decoder stubs and returns placeholder bytes
 		iv, ok := args[0].(*IfaceV)
@@ -597,13 +607,66 @@ func registerTomlStubs(ex *Exec) {
 	ex.GlobalInit["github.com/holoplot/go-evdev.KEYFromString"] = tableInit(evdevKeys)
 	ex.GlobalInit["github.com/holoplot/go-evdev.ABSFromString"] = tableInit(evdevAbs)
 	S["bytes.NewReader"] = func(ex *Exec, st *State, site ssa.Instruction, fn *ssa.Function, args []Value) Value {
-		return ex.newOpaque("bytesReader")
+		r := ex.newOpaque("bytesReader")
+		r.Data["bytes"] = args[0]
+		return r
 	}
 	S["github.com/pelletier/go-toml/v2.NewDecoder"] = func(ex *Exec, st *State, site ssa.Instruction, fn *ssa.Function, args []Value) Value {
-		return ex.newOpaque("tomlDecoder")
+		d := ex.newOpaque("tomlDecoder")
+		if iv, ok := args[0].(*IfaceV); ok {
+			if r, ok := iv.V.(*Opaque); ok {
+				d.Data["bytes"] = r.Data["bytes"]
+			}
+		}
+		return d
 	}
 	S["(*github.com/pelletier/go-toml/v2.Decoder).DisallowUnknownFields"] = func(ex *Exec, st *State, site ssa.Instruction, fn *ssa.Function, args []Value) Value {
 		return args[0]
+	}
+	// decodeTokens: the bytes are a token registered by verifrt.TOMLToken (decodes to that value or fails with the
+	// registered kind), empty (valid TOML: the target keeps its zero value) or anything else (syntax error)
+	decodeTokens := func(ex *Exec, st *State, site ssa.Instruction, data *SliceV, target Value) Value {
+		var dst *PtrV
+		switch t := target.(type) {
+		case *PtrV:
+			dst = t
+		case *IfaceV:
+			dst, _ = t.V.(*PtrV)
+		}
+		if dst == nil {
+			panic(unsupported("toml decode target is not a pointer"))
+		}
+		elems := ex.sliceElems(st, data)
+		b := func(i int) *smt.Term {
+			if i < len(elems) {
+				return elems[i].(*smt.Term)
+			}
+			return smt.Const(8, 0)
+		}
+		isTok := smt.And(smt.Eq(data.Len, bv64(2)), smt.Eq(b(0), smt.Const(8, 0xF0)))
+		empty := smt.Eq(data.Len, bv64(0))
+		okAny := empty
+		isDecodeErr := smt.And(smt.Not(isTok), smt.Not(empty))
+		known := smt.False
+		for i, reg := range ex.DecodedList {
+			ci := smt.And(isTok, smt.Eq(b(1), smt.Const(8, uint64(i))))
+			known = smt.Or(known, ci)
+			oki := smt.And(ci, smt.Eq(reg.kind, smt.Const(8, 0)))
+			okAny = smt.Or(okAny, oki)
+			isDecodeErr = smt.Or(isDecodeErr, smt.And(ci, smt.Eq(reg.kind, smt.Const(8, 1))))
+			src, ok := reg.val.(*PtrV)
+			if !ok {
+				panic(unsupported("registered decoded value is not a pointer"))
+			}
+			ex.guarded(st, oki, func(st *State) {
+				st.heap[dst.Obj] = ex.setPath(ex.get(st, dst.Obj), dst.Path, ex.load(st, site, src))
+			})
+		}
+		// a token-shaped content that was never registered is a syntax error as well
+		isDecodeErr = smt.Or(isDecodeErr, smt.And(isTok, smt.Not(known)))
+		errOp := ex.newOpaque("error")
+		errOp.Data["decodeErr"] = isDecodeErr
+		return mergeV(smt.Not(okAny), &IfaceV{T: nil, V: errOp}, Nil)
 	}
 	decode := func(ex *Exec, st *State, site ssa.Instruction, target Value) Value {
 		// the library either fails or leaves an arbitrary value of the target type: the harness supplies that value
@@ -688,9 +751,17 @@ func registerTomlStubs(ex *Exec) {
 		}
 	}
 	S["(*github.com/pelletier/go-toml/v2.Decoder).Decode"] = func(ex *Exec, st *State, site ssa.Instruction, fn *ssa.Function, args []Value) Value {
+		if d, ok := args[0].(*Opaque); ok && len(ex.DecodedList) > 0 {
+			if data, ok := d.Data["bytes"].(*SliceV); ok {
+				return decodeTokens(ex, st, site, data, args[1])
+			}
+		}
 		return decode(ex, st, site, args[1])
 	}
 	S["github.com/pelletier/go-toml/v2.Unmarshal"] = func(ex *Exec, st *State, site ssa.Instruction, fn *ssa.Function, args []Value) Value {
+		if data, ok := args[0].(*SliceV); ok && len(ex.DecodedList) > 0 {
+			return decodeTokens(ex, st, site, data, args[1])
+		}
 		return decode(ex, st, site, args[1])
 	}
 	S["os.ReadFile"] = func(ex *Exec, st *State, site ssa.Instruction, fn *ssa.Function, args []Value) Value {
